@@ -1141,8 +1141,34 @@ def run_paths(ctx, num, depth=26):
     return stats
 
 
+def run_types(ctx):
+    """C17 type identity: every ordered pair of 21 key / value types (built-in, user-defined - one named like a built-in -, tuples with
+    the user type in every position, Option, arrays): created with one, opened with the other; TypesTrace.tla judges"""
+    trace = os.path.join(ctx.work, "types.ndjson")
+    p = sh([bin_path("types"), "--out", trace], timeout=900)
+    stats = json.loads(p.stdout.strip().splitlines()[-1])
+    lines = [json.loads(l) for l in open(trace)]
+    same = sum(1 for l in lines if l["stored"] == l["opened"])
+    if same < 100 or len(lines) - same < 1000:
+        raise ToolError(f"vacuity: type pairs: {len(lines)} opens, {same} with equal descriptors")
+    ok, info = tlc_trace_generic(ctx, "TypesTrace", trace)
+    ctx.cov["evaluations"] += stats["opens"]
+    ctx.cov["distinct_nontrivial"] += stats["opens"]
+    ctx.notes["type_identity"] = {"opens": stats["opens"], "equal_descriptors": same, "different_descriptors": len(lines) - same}
+    if not ok:
+        rec = info["record"]
+        what = (f"type identity: a {'multimap ' if rec['kind'] == 'm' else ''}table created with {rec['pos']} type {json.dumps(rec['stored'])} and opened "
+                f"({'write' if rec['via'] == 'w' else 'read'} transaction) with {json.dumps(rec['opened'])} returned {json.dumps(rec['r'])}")
+        sig = "types:" + hashlib.sha256(json.dumps([rec["stored"], rec["opened"], rec["pos"], rec["kind"], rec["via"]], sort_keys=True).encode()).hexdigest()[:16]
+        payload = {"property": ctx.prop, "kind": "contract-types", "record": rec, "what": what, "signature": sig}
+        raise Violation(ctx.prop, save_replay(ctx.prop, payload), what, sig)
+    ctx.cov["traces_validated_against_impl"] += 1
+    log(f"types: {stats['opens']} opens ({same} with equal descriptors), all as TypesTrace.tla demands")
+
+
 def check_C17(ctx):
     build()
+    run_types(ctx)
     run_paths(ctx, tiered(ctx, 300, 3000))
     runs, steps = tiered(ctx, (40, 400), (400, 1200))
     run_kv_walk(ctx, "catalog", runs, steps, page_sizes="512,4096", caches="1048576,0")
@@ -1150,7 +1176,11 @@ def check_C17(ctx):
     s, _ = tlc_check(ctx, "MC_Kv", "MC_Kv_table.cfg", workers=4)
     ctx.assumptions += ["type pairs restricted to the harness's 6 normal and 4 multimap (K, V) instantiations"]
     return dict(level="model_checking", exhaustive=False,
-                rule="random catalog histories (open with right and deliberately wrong kind/types, close in any order, rename, delete, list, "
+                rule="type identity: every ordered pair of 21 key / value types (built-in; user-defined, one of them named and sized like a "
+                     "built-in; tuples with the user type in every position; Option; arrays) - a table created with one and opened with the "
+                     "other, normal and multimap, key and value position, write and read transaction: success iff the abstract descriptors are "
+                     "equal, TableTypeMismatch otherwise (TypesTrace.tla, 3 528 opens). "
+                     "random catalog histories (open with right and deliberately wrong kind/types, close in any order, rename, delete, list, "
                      "data writes, commit/abort/reopen, readers) validated event by event by TLC against the catalog rules of Kv.tla; "
                      "non-trivial = catalog operation events")
 
